@@ -300,6 +300,7 @@ def run(chk, ctx):
     from . import round5
     round5.gates_tolerate_tidied_group(chk, ctx)   # a KeyError in the gate leaves an empty join state behind: the back stop ends the SUCCEEDED execution a second time
     round5.placeholder_not_visible_to_error_handling(chk, ctx)   # execution RUNNING for ever
+    round5.notify_fails_only_behind_the_gate(chk, ctx)   # a straggler that ends a failed execution a second time
     chk.assume("engine-internal calls (change_state, handle_error, acknowledge, publish) do not raise; exception edges come from the may-raise table of sa/flow.py")
     chk.assume("loops run 0-or-more times; branch correlation only through the four idioms of DESIGN.md section 2")
     chk.assume("handle_error / handle_terminal_state / the join / the termination gate are verified against their contract and the contract is used at call sites")
